@@ -13,13 +13,17 @@ import (
 
 var mu sync.Mutex
 
+// out is captured at start-up: harnesses may redirect os.Stdout later to keep
+// output of the code under test away from the protocol stream.
+var out = os.Stdout
+
 func emit(m map[string]any) {
 	b, err := json.Marshal(m)
 	if err != nil {
 		b, _ = json.Marshal(map[string]any{"t": "broken", "msg": "unmarshalable message: " + err.Error()})
 	}
 	mu.Lock()
-	os.Stdout.Write(append(append([]byte("@@V "), b...), '\n'))
+	out.Write(append(append([]byte("@@V "), b...), '\n'))
 	mu.Unlock()
 }
 
